@@ -138,7 +138,7 @@ def abs_value(v, visible=False):
         return {"t": "bytes", "b": list(v)}
     if v is None:
         return {"t": "none"}
-    if isinstance(v, list):
+    if isinstance(v, (list, tuple)):
         return {"t": "list", "l": [abs_value(x, visible) for x in v]}
     if isinstance(v, Packet):
         return abs_packet(v, visible)
